@@ -331,6 +331,9 @@ pub fn run_tree<D: Dom>(cfg: &TreeCfg<D>, tree: &Node, at: &Option<D::V>, st: &m
             rec.add(v);
         } else {
             st.bump(&format!("other-kind:{}", kind.name()), 1);
+            if std::env::var_os("VERIF_SHOW_OTHER").is_some() {
+                eprintln!("OTHER-KIND {} [{} {}] input={:?} at={} expected {} / observed {}", kind.name(), cfg.engine, D::EV.name(), text, D::show(&at_v), expected, observed);
+            }
         }
     }
 }
